@@ -95,6 +95,48 @@ type c05fault struct {
 
 var c05fresh = map[byte]string{'@': "@zz_undefined", '%': "%zz_undefined", '$': "$zz_undefined", '!': "!4111222333"}
 
+// c05nearMaxDevs: near-miss names are tried on bases with at most this many deviations.
+var c05nearMaxDevs = 0
+
+// c05nearMisses returns look-alikes of a plain (unquoted, non-numeric) identifier token.
+func c05nearMisses(tok string) []string {
+	if len(tok) < 2 {
+		return nil
+	}
+	sig, body := tok[:1], tok[1:]
+	allDigits := true
+	for i := 0; i < len(body); i++ {
+		c := body[i]
+		if !(c >= 'a' && c <= 'z' || c >= 'A' && c <= 'Z' || c >= '0' && c <= '9' || c == '.' || c == '_' || c == '$' || c == '-') {
+			return nil // quoted or escaped spellings: left alone
+		}
+		if c < '0' || c > '9' {
+			allDigits = false
+		}
+	}
+	if allDigits {
+		return nil
+	}
+	out := []string{sig + "$" + body, sig + "." + body, sig + body + ".", sig + body + "$", sig + "\"" + body + " \"", sig + "\" " + body + "\""}
+	sw := []byte(body)
+	for i, c := range sw {
+		if c >= 'a' && c <= 'z' {
+			sw[i] = c - 32
+			break
+		} else if c >= 'A' && c <= 'Z' {
+			sw[i] = c + 32
+			break
+		}
+	}
+	if string(sw) != body {
+		out = append(out, sig+string(sw))
+	}
+	if len(body) > 1 {
+		out = append(out, sig+body[:len(body)-1])
+	}
+	return out
+}
+
 // c05faults derives all single naming faults of a base module.
 func c05faults(v gen.Variant) []c05fault {
 	text := gen.Module([]gen.Variant{v})
@@ -120,6 +162,15 @@ func c05faults(v gen.Variant) []c05fault {
 			continue // %0-style implicit names, intrinsic-free externals: not a tagged reference
 		}
 		out = append(out, c05fault{v: v, kind: "undefined", site: s.kind, token: s.tok, text: text[:s.start] + c05fresh[s.tok[0]] + text[s.end:]})
+		// near misses: undefined names that a sloppy lookup (trimmed sigils, trimmed dots or spaces,
+		// case folding, prefix matching) would conflate with the defined one.
+		if len(v.Devs) <= c05nearMaxDevs {
+			for _, nt := range c05nearMisses(s.tok) {
+				if !defined[nt] {
+					out = append(out, c05fault{v: v, kind: "undefined", site: s.kind + "-near-miss", token: s.tok + "->" + nt, text: text[:s.start] + nt + text[s.end:]})
+				}
+			}
+		}
 		// in modules with unnamed globals also every small NUMBER that names no global (the
 		// numbers of other definition kinds -- !3, #5 -- must not make @3 or @5 resolvable).
 		if s.tok[0] == '@' && hasUnnamedGlobal {
@@ -380,6 +431,9 @@ func runC05(c *fw.Check) {
 	}
 	var viols []vrec
 	nfaults, benign, sampled, sampledOK := 0, 0, 0, 0
+	if !c.Quick() {
+		c05nearMaxDevs = 1
+	}
 	fw.ParallelFor(len(bases), func(bi int) {
 		if c.OverBudget() {
 			return
